@@ -175,6 +175,8 @@ def apply_delta(p0, p1, mods, root, plain, mode):
         importlib.invalidate_caches()
         if mods.get("q") is not None:
             importlib.reload(mods["q"])
+        if mods.get("i") is not None:
+            importlib.reload(mods["i"])
         if "b" in mods and mods["b"] is not None:
             importlib.reload(mods["b"])
         importlib.reload(mods["a"])
@@ -188,7 +190,13 @@ def apply_delta(p0, p1, mods, root, plain, mode):
             old.extend(new) if isinstance(old, list) else old.update(new)
         else:
             setattr(a, v, new)
+    for v in progen.changed_bvars(p0, p1):
+        setattr(mods["b"], v, p1["b_vars"][v])
     for c in classes:
+        if mode == "mutate":  # attributes set on the live class object (no new class, no re-binding)
+            for k, val in p1["classes"][c].items():
+                setattr(getattr(a, c), k, val)
+            continue
         _exec_into(a, progen.render_class(c, p1["classes"][c]), root, plain)
         for bname, target in p1.get("bindings", {}).items():
             if target == c:
@@ -214,7 +222,8 @@ def _inproc_child(editions, root, store_dir, calls, plain, mode, vnames, cluster
         set_env(store_dir, clusters)
     progen.write_pkg(editions[0], root, plain)
     a = _import_pkg(root)
-    mods = {"a": a, "b": sys.modules.get("vfp.b"), "q": sys.modules.get("vfq.lib")}
+    mods = {"a": a, "b": sys.modules.get("vfp.b"), "q": sys.modules.get("vfq.lib"),
+            "i": sys.modules.get("vfp") if any(f["module"] == "i" for f in editions[0]["funcs"]) else None}
     out = []
     for k, ed in enumerate(editions):
         if k > 0:
